@@ -64,4 +64,11 @@ def main(argv):
 
 
 if __name__ == '__main__':
-    sys.exit(main(sys.argv[1:]))
+    try:
+        rc = main(sys.argv[1:])
+    except Exception as e:   # noqa -- never exit 1 without a VIOLATION line
+        import traceback
+        traceback.print_exc()
+        print('HARNESS-ERROR: %s: %s' % (type(e).__name__, str(e)[-2000:]))
+        rc = 3
+    sys.exit(rc)
